@@ -30,7 +30,7 @@
 EXTENDS Integers, Sequences, FiniteSets, TLC, Json
 
 CONSTANTS
-  LensName,       \* "terms" | "interned"
+  LensName,       \* "terms" | "interned" | "opterms"
   KeepAlive,      \* TRUE: a term keeps its arrays alive (the real system)
   MaxDepth,       \* histories up to this length are explored
   EmitDepth,      \* histories of exactly this length are printed (0: none)
@@ -66,20 +66,20 @@ NNull == 0   \* ops.null / empty frozenset
 
 (* ---- terms lens: recipes over two array slots ------------------------- *)
 TermRcp == <<
-  [name |-> "VX",   cls |-> "Variable",    args |-> <<Nn(1), Cc(3)>>,                 sl |-> {}, pre |-> <<>>],      \* Variable('x', Bint[3])
-  [name |-> "VI",   cls |-> "Variable",    args |-> <<Nn(2), Cc(2)>>,                 sl |-> {}, pre |-> <<>>],      \* Variable('i', Bint[2])
-  [name |-> "TA",   cls |-> "Tensor",      args |-> <<Ss(1), Nn(2), Cc(2)>>,          sl |-> {1}, pre |-> <<>>],     \* Tensor(A, {'i': Bint[2]})
-  [name |-> "TB",   cls |-> "Tensor",      args |-> <<Ss(2), Nn(2), Cc(2)>>,          sl |-> {2}, pre |-> <<>>],     \* Tensor(B, {'i': Bint[2]})
-  [name |-> "NUM",  cls |-> "Number",      args |-> <<Cc(5)>>,                        sl |-> {}, pre |-> <<>>],      \* Number(0.5)
-  [name |-> "BXN",  cls |-> "Binary",      args |-> <<Cc(NAdd), Rr(1), Rr(5)>>,       sl |-> {}, pre |-> <<>>],      \* Binary(add, VX, NUM)
-  [name |-> "BIN",  cls |-> "Binary",      args |-> <<Cc(NAdd), Rr(3), Rr(4)>>,       sl |-> {1, 2}, pre |-> <<>>],  \* Binary(add, TA, TB)
-  [name |-> "RED",  cls |-> "Reduce",      args |-> <<Cc(NAdd), Rr(3), Rr(2)>>,       sl |-> {1}, pre |-> <<>>],     \* Reduce(add, TA, {VI})
-  [name |-> "CBXN", cls |-> "Contraction", args |-> <<Cc(NNull), Cc(NAdd), Cc(NNull), Rr(1), Rr(5)>>, sl |-> {}, pre |-> <<>>],
-  [name |-> "CBIN", cls |-> "Contraction", args |-> <<Cc(NNull), Cc(NAdd), Cc(NNull), Rr(3), Rr(4)>>, sl |-> {1, 2}, pre |-> <<>>],
-  [name |-> "CRED", cls |-> "Contraction", args |-> <<Cc(NAdd), Cc(NNull), Rr(2), Rr(3)>>,            sl |-> {1}, pre |-> <<>>],
+  [name |-> "VX",   cls |-> "Variable",    args |-> <<Nn(1), Cc(3)>>,                 sl |-> {}, pre |-> <<>>, ex |-> <<>>],      \* Variable('x', Bint[3])
+  [name |-> "VI",   cls |-> "Variable",    args |-> <<Nn(2), Cc(2)>>,                 sl |-> {}, pre |-> <<>>, ex |-> <<>>],      \* Variable('i', Bint[2])
+  [name |-> "TA",   cls |-> "Tensor",      args |-> <<Ss(1), Nn(2), Cc(2)>>,          sl |-> {1}, pre |-> <<>>, ex |-> <<>>],     \* Tensor(A, {'i': Bint[2]})
+  [name |-> "TB",   cls |-> "Tensor",      args |-> <<Ss(2), Nn(2), Cc(2)>>,          sl |-> {2}, pre |-> <<>>, ex |-> <<>>],     \* Tensor(B, {'i': Bint[2]})
+  [name |-> "NUM",  cls |-> "Number",      args |-> <<Cc(5)>>,                        sl |-> {}, pre |-> <<>>, ex |-> <<>>],      \* Number(0.5)
+  [name |-> "BXN",  cls |-> "Binary",      args |-> <<Cc(NAdd), Rr(1), Rr(5)>>,       sl |-> {}, pre |-> <<>>, ex |-> <<>>],      \* Binary(add, VX, NUM)
+  [name |-> "BIN",  cls |-> "Binary",      args |-> <<Cc(NAdd), Rr(3), Rr(4)>>,       sl |-> {1, 2}, pre |-> <<>>, ex |-> <<>>],  \* Binary(add, TA, TB)
+  [name |-> "RED",  cls |-> "Reduce",      args |-> <<Cc(NAdd), Rr(3), Rr(2)>>,       sl |-> {1}, pre |-> <<>>, ex |-> <<>>],     \* Reduce(add, TA, {VI})
+  [name |-> "CBXN", cls |-> "Contraction", args |-> <<Cc(NNull), Cc(NAdd), Cc(NNull), Rr(1), Rr(5)>>, sl |-> {}, pre |-> <<>>, ex |-> <<>>],
+  [name |-> "CBIN", cls |-> "Contraction", args |-> <<Cc(NNull), Cc(NAdd), Cc(NNull), Rr(3), Rr(4)>>, sl |-> {1, 2}, pre |-> <<>>, ex |-> <<>>],
+  [name |-> "CRED", cls |-> "Contraction", args |-> <<Cc(NAdd), Cc(NNull), Rr(2), Rr(3)>>,            sl |-> {1}, pre |-> <<>>, ex |-> <<>>],
   (* eager evaluation of a ground term: the arguments are built, then a Tensor over a NEW array *)
-  [name |-> "EBIN", cls |-> "Tensor", args |-> <<<<"f", 0>>, Nn(2), Cc(2)>>, sl |-> {1, 2}, pre |-> <<Rr(3), Rr(4)>>],
-  [name |-> "ERED", cls |-> "Tensor", args |-> <<<<"f", 0>>, Cc(0), Cc(0)>>, sl |-> {1},    pre |-> <<Rr(3), Rr(2)>>] >>
+  [name |-> "EBIN", cls |-> "Tensor", args |-> <<<<"f", 0>>, Nn(2), Cc(2)>>, sl |-> {1, 2}, pre |-> <<Rr(3), Rr(4)>>, ex |-> <<>>],
+  [name |-> "ERED", cls |-> "Tensor", args |-> <<<<"f", 0>>, Cc(0), Cc(0)>>, sl |-> {1},    pre |-> <<Rr(3), Rr(2)>>, ex |-> <<>>] >>
 
 TermClasses == <<"Variable", "Number", "Tensor", "Binary", "Reduce", "Contraction">>
 
@@ -121,36 +121,36 @@ TermPairsAt(d) ==
 (* raw args start with a spelling tag; NormArgs is the normalisation the   *)
 (* metaclasses apply before keying                                         *)
 InternRcp == <<
-  [name |-> "Bint7",      cls |-> "ArrayType",     args |-> <<Cc(1), Cc(7)>>,               sl |-> {}, pre |-> <<>>],  \* Bint[7]
-  [name |-> "Arr7",       cls |-> "ArrayType",     args |-> <<Cc(0), Cc(7)>>,               sl |-> {}, pre |-> <<>>],  \* Array[7, ()]
-  [name |-> "Reals57",    cls |-> "ArrayType",     args |-> <<Cc(2), Cc(5), Cc(7)>>,        sl |-> {}, pre |-> <<>>],  \* Reals[5, 7]
-  [name |-> "ArrR57",     cls |-> "ArrayType",     args |-> <<Cc(0), Cc(-1), Cc(5), Cc(7)>>, sl |-> {}, pre |-> <<>>], \* Array['real', (5, 7)]
-  [name |-> "Reals5",     cls |-> "ArrayType",     args |-> <<Cc(2), Cc(5)>>,               sl |-> {}, pre |-> <<>>],  \* Reals[5]
-  [name |-> "Bint72",     cls |-> "ArrayType",     args |-> <<Cc(1), Cc(7), Cc(2)>>,        sl |-> {}, pre |-> <<>>],  \* Bint[7, 2]
-  [name |-> "Prod",       cls |-> "ProductDomain", args |-> <<Cc(0), Rr(1), Rr(3)>>,        sl |-> {}, pre |-> <<>>],  \* Product[Bint[7], Reals[5,7]]
-  [name |-> "Getitem1",   cls |-> "GetitemOp",     args |-> <<Cc(1), Cc(1)>>,               sl |-> {}, pre |-> <<>>],  \* GetitemOp(1)
-  [name |-> "Getitem1kw", cls |-> "GetitemOp",     args |-> <<Cc(2), Cc(1)>>,               sl |-> {}, pre |-> <<>>],  \* GetitemOp(offset=1)
-  [name |-> "Getitem2",   cls |-> "GetitemOp",     args |-> <<Cc(1), Cc(2)>>,               sl |-> {}, pre |-> <<>>],  \* GetitemOp(2)
-  [name |-> "ReshapeT",   cls |-> "ReshapeOp",     args |-> <<Cc(0), Cc(2), Cc(3)>>,        sl |-> {}, pre |-> <<>>],  \* ReshapeOp((2, 3))
-  [name |-> "ReshapeL",   cls |-> "ReshapeOp",     args |-> <<Cc(1), Cc(2), Cc(3)>>,        sl |-> {}, pre |-> <<>>],  \* ReshapeOp([2, 3])
-  [name |-> "Reshape32",  cls |-> "ReshapeOp",     args |-> <<Cc(0), Cc(3), Cc(2)>>,        sl |-> {}, pre |-> <<>>],  \* ReshapeOp((3, 2))
-  [name |-> "Sum0F",      cls |-> "SumOp",         args |-> <<Cc(2), Cc(0), Cc(0)>>,        sl |-> {}, pre |-> <<>>],  \* SumOp(0, False)
-  [name |-> "Sum0",       cls |-> "SumOp",         args |-> <<Cc(1), Cc(0)>>,               sl |-> {}, pre |-> <<>>],  \* SumOp(0)
-  [name |-> "Sum0kw",     cls |-> "SumOp",         args |-> <<Cc(3), Cc(0), Cc(0)>>,        sl |-> {}, pre |-> <<>>],  \* SumOp(axis=0, keepdims=False)
-  [name |-> "Sum0T",      cls |-> "SumOp",         args |-> <<Cc(2), Cc(0), Cc(1)>>,        sl |-> {}, pre |-> <<>>],  \* SumOp(0, True)
-  [name |-> "SliceT",     cls |-> "GetsliceOp",    args |-> <<Cc(0), Cc(0), Cc(2), Cc(1)>>, sl |-> {}, pre |-> <<>>],  \* GetsliceOp((slice(0,2,1),))
-  [name |-> "SliceB",     cls |-> "GetsliceOp",    args |-> <<Cc(1), Cc(0), Cc(2), Cc(1)>>, sl |-> {}, pre |-> <<>>],  \* GetsliceOp(slice(0,2,1))
-  [name |-> "SliceKw",    cls |-> "GetsliceOp",    args |-> <<Cc(2), Cc(0), Cc(2), Cc(1)>>, sl |-> {}, pre |-> <<>>],  \* GetsliceOp(index=slice(0,2,1))
-  [name |-> "TyBinAdd",   cls |-> "BinaryT",       args |-> <<Cc(0), Cc(NAdd), Cc(1), Cc(1)>>, sl |-> {}, pre |-> <<>>], \* Binary[AddOp, Tensor, Tensor]
-  [name |-> "TyBinAddL",  cls |-> "BinaryT",       args |-> <<Cc(1), Cc(NAdd), Cc(1), Cc(1)>>, sl |-> {}, pre |-> <<>>], \* Binary[tuple([AddOp, Tensor, Tensor])]
-  [name |-> "TyBinGet",   cls |-> "BinaryT",       args |-> <<Cc(0), Cc(11), Cc(2), Cc(3)>>, sl |-> {}, pre |-> <<>>], \* Binary[GetitemOp, Variable, Number]
-  [name |-> "TyRed",      cls |-> "ReduceT",       args |-> <<Cc(0), Cc(12), Cc(2), Cc(4)>>, sl |-> {}, pre |-> <<>>] >> \* Reduce[MulOp, Variable, frozenset]
+  [name |-> "Bint7",      cls |-> "ArrayType",     args |-> <<Cc(1), Cc(7)>>,               sl |-> {}, pre |-> <<>>, ex |-> <<>>],  \* Bint[7]
+  [name |-> "Arr7",       cls |-> "ArrayType",     args |-> <<Cc(0), Cc(7)>>,               sl |-> {}, pre |-> <<>>, ex |-> <<>>],  \* Array[7, ()]
+  [name |-> "Reals57",    cls |-> "ArrayType",     args |-> <<Cc(2), Cc(5), Cc(7)>>,        sl |-> {}, pre |-> <<>>, ex |-> <<>>],  \* Reals[5, 7]
+  [name |-> "ArrR57",     cls |-> "ArrayType",     args |-> <<Cc(0), Cc(-1), Cc(5), Cc(7)>>, sl |-> {}, pre |-> <<>>, ex |-> <<>>], \* Array['real', (5, 7)]
+  [name |-> "Reals5",     cls |-> "ArrayType",     args |-> <<Cc(2), Cc(5)>>,               sl |-> {}, pre |-> <<>>, ex |-> <<>>],  \* Reals[5]
+  [name |-> "Bint72",     cls |-> "ArrayType",     args |-> <<Cc(1), Cc(7), Cc(2)>>,        sl |-> {}, pre |-> <<>>, ex |-> <<>>],  \* Bint[7, 2]
+  [name |-> "Prod",       cls |-> "ProductDomain", args |-> <<Cc(0), Rr(1), Rr(3)>>,        sl |-> {}, pre |-> <<>>, ex |-> <<>>],  \* Product[Bint[7], Reals[5,7]]
+  [name |-> "Getitem1",   cls |-> "GetitemOp",     args |-> <<Cc(1), Cc(1)>>,               sl |-> {}, pre |-> <<>>, ex |-> <<>>],  \* GetitemOp(1)
+  [name |-> "Getitem1kw", cls |-> "GetitemOp",     args |-> <<Cc(2), Cc(1)>>,               sl |-> {}, pre |-> <<>>, ex |-> <<>>],  \* GetitemOp(offset=1)
+  [name |-> "Getitem2",   cls |-> "GetitemOp",     args |-> <<Cc(1), Cc(2)>>,               sl |-> {}, pre |-> <<>>, ex |-> <<>>],  \* GetitemOp(2)
+  [name |-> "ReshapeT",   cls |-> "ReshapeOp",     args |-> <<Cc(0), Cc(2), Cc(3)>>,        sl |-> {}, pre |-> <<>>, ex |-> <<>>],  \* ReshapeOp((2, 3))
+  [name |-> "ReshapeL",   cls |-> "ReshapeOp",     args |-> <<Cc(1), Cc(2), Cc(3)>>,        sl |-> {}, pre |-> <<>>, ex |-> <<>>],  \* ReshapeOp([2, 3])
+  [name |-> "Reshape32",  cls |-> "ReshapeOp",     args |-> <<Cc(0), Cc(3), Cc(2)>>,        sl |-> {}, pre |-> <<>>, ex |-> <<>>],  \* ReshapeOp((3, 2))
+  [name |-> "Sum0F",      cls |-> "SumOp",         args |-> <<Cc(2), Cc(0), Cc(0)>>,        sl |-> {}, pre |-> <<>>, ex |-> <<>>],  \* SumOp(0, False)
+  [name |-> "Sum0",       cls |-> "SumOp",         args |-> <<Cc(1), Cc(0)>>,               sl |-> {}, pre |-> <<>>, ex |-> <<>>],  \* SumOp(0)
+  [name |-> "Sum0kw",     cls |-> "SumOp",         args |-> <<Cc(3), Cc(0), Cc(0)>>,        sl |-> {}, pre |-> <<>>, ex |-> <<>>],  \* SumOp(axis=0, keepdims=False)
+  [name |-> "Sum0T",      cls |-> "SumOp",         args |-> <<Cc(2), Cc(0), Cc(1)>>,        sl |-> {}, pre |-> <<>>, ex |-> <<>>],  \* SumOp(0, True)
+  [name |-> "SliceT",     cls |-> "GetsliceOp",    args |-> <<Cc(0), Cc(0), Cc(2), Cc(1)>>, sl |-> {}, pre |-> <<>>, ex |-> <<>>],  \* GetsliceOp((slice(0,2,1),))
+  [name |-> "SliceB",     cls |-> "GetsliceOp",    args |-> <<Cc(1), Cc(0), Cc(2), Cc(1)>>, sl |-> {}, pre |-> <<>>, ex |-> <<>>],  \* GetsliceOp(slice(0,2,1))
+  [name |-> "SliceKw",    cls |-> "GetsliceOp",    args |-> <<Cc(2), Cc(0), Cc(2), Cc(1)>>, sl |-> {}, pre |-> <<>>, ex |-> <<>>],  \* GetsliceOp(index=slice(0,2,1))
+  [name |-> "TyBinAdd",   cls |-> "BinaryT",       args |-> <<Cc(0), Cc(NAdd), Cc(1), Cc(1)>>, sl |-> {}, pre |-> <<>>, ex |-> <<>>], \* Binary[AddOp, Tensor, Tensor]
+  [name |-> "TyBinAddL",  cls |-> "BinaryT",       args |-> <<Cc(1), Cc(NAdd), Cc(1), Cc(1)>>, sl |-> {}, pre |-> <<>>, ex |-> <<>>], \* Binary[tuple([AddOp, Tensor, Tensor])]
+  [name |-> "TyBinGet",   cls |-> "BinaryT",       args |-> <<Cc(0), Cc(11), Cc(2), Cc(3)>>, sl |-> {}, pre |-> <<>>, ex |-> <<>>], \* Binary[GetitemOp, Variable, Number]
+  [name |-> "TyRed",      cls |-> "ReduceT",       args |-> <<Cc(0), Cc(12), Cc(2), Cc(4)>>, sl |-> {}, pre |-> <<>>, ex |-> <<>>] >> \* Reduce[MulOp, Variable, frozenset]
 
 InternClasses == <<"ArrayType", "ProductDomain", "GetitemOp", "ReshapeOp", "SumOp", "GetsliceOp", "BinaryT", "ReduceT">>
 
 (* pickling is defined for array domains and ops (copyreg / __reduce__),   *)
 (* not for Product domains and parametrised term types                     *)
-Picklable(cls) == cls \notin {"ProductDomain", "BinaryT", "ReduceT"}
+Picklable(cls) == cls \notin {"ProductDomain", "BinaryT", "ReduceT", "UnaryT"}
 
 (* the normalisation applied by the metaclass before keying                *)
 NormArgs(cls, raw) ==
@@ -160,16 +160,52 @@ NormArgs(cls, raw) ==
     [] cls = "SumOp" ->
          (* (axis) / (axis, keepdims) / keywords -> signature defaults applied: (axis, keepdims) *)
          IF raw[1][2] = 1 THEN <<raw[2], Cc(0)>> ELSE <<raw[2], raw[3]>>
-    [] cls \in {"GetitemOp", "ReshapeOp", "GetsliceOp", "ProductDomain", "BinaryT", "ReduceT"} ->
+    [] cls \in {"GetitemOp", "ReshapeOp", "GetsliceOp", "ProductDomain", "BinaryT", "ReduceT", "UnaryT"} ->
          (* positional or keyword; list or tuple; bare slice or 1-tuple: the spelling is dropped *)
          Tail(raw)
     [] OTHER -> raw
 
-Rcp == IF LensName = "terms" THEN TermRcp ELSE InternRcp
-Classes == IF LensName = "terms" THEN TermClasses ELSE InternClasses
+(* ---- opterms lens: lazy terms built through PARAMETRISED ops over fresh array   *)
+(* domains.  Domains, op instances and parametrised term types are heap objects     *)
+(* here: a Variable refers to its domain, a Binary / Unary to its op; on a table     *)
+(* miss the new node also acquires (ex) its output domain (find_domain in __init__)  *)
+(* and its parametrised class (reflect: get_origin(cls)[arg_types]).  Nothing else   *)
+(* may hold them: after Drop + Collect of everything all ten tables are empty.       *)
+OpTermRcp == <<
+  [name |-> "DX",  cls |-> "ArrayType", args |-> <<Cc(2), Cc(13), Cc(11)>>, sl |-> {}, pre |-> <<>>, ex |-> <<>>],   \* Reals[13, 11]
+  [name |-> "DJ",  cls |-> "ArrayType", args |-> <<Cc(1), Cc(11)>>,         sl |-> {}, pre |-> <<>>, ex |-> <<>>],   \* Bint[11]
+  [name |-> "DG",  cls |-> "ArrayType", args |-> <<Cc(2), Cc(13)>>,         sl |-> {}, pre |-> <<>>, ex |-> <<>>],   \* Reals[13]
+  [name |-> "DS",  cls |-> "ArrayType", args |-> <<Cc(2), Cc(13), Cc(1)>>,  sl |-> {}, pre |-> <<>>, ex |-> <<>>],   \* Reals[13, 1]
+  [name |-> "DR",  cls |-> "ArrayType", args |-> <<Cc(2), Cc(11), Cc(13)>>, sl |-> {}, pre |-> <<>>, ex |-> <<>>],   \* Reals[11, 13]
+  [name |-> "G1",  cls |-> "GetitemOp", args |-> <<Cc(1), Cc(1)>>,          sl |-> {}, pre |-> <<>>, ex |-> <<>>],   \* GetitemOp(1)
+  [name |-> "S1T", cls |-> "SumOp",     args |-> <<Cc(2), Cc(1), Cc(1)>>,   sl |-> {}, pre |-> <<>>, ex |-> <<>>],   \* SumOp(1, True)
+  [name |-> "RS",  cls |-> "ReshapeOp", args |-> <<Cc(0), Cc(11), Cc(13)>>, sl |-> {}, pre |-> <<>>, ex |-> <<>>],   \* ReshapeOp((11, 13))
+  [name |-> "VXM", cls |-> "Variable",  args |-> <<Nn(1), Rr(1)>>,          sl |-> {}, pre |-> <<>>, ex |-> <<>>],   \* Variable('x', Reals[13, 11])
+  [name |-> "VJ",  cls |-> "Variable",  args |-> <<Nn(3), Rr(2)>>,          sl |-> {}, pre |-> <<>>, ex |-> <<>>],   \* Variable('j', Bint[11])
+  [name |-> "TBG", cls |-> "BinaryT",   args |-> <<Cc(0), Cc(11), Cc(2), Cc(2)>>, sl |-> {}, pre |-> <<>>, ex |-> <<>>], \* Binary[GetitemOp, Variable, Variable]
+  [name |-> "TUS", cls |-> "UnaryT",    args |-> <<Cc(0), Cc(13), Cc(2)>>,  sl |-> {}, pre |-> <<>>, ex |-> <<>>],   \* Unary[SumOp, Variable]
+  [name |-> "TUR", cls |-> "UnaryT",    args |-> <<Cc(0), Cc(14), Cc(2)>>,  sl |-> {}, pre |-> <<>>, ex |-> <<>>],   \* Unary[ReshapeOp, Variable]
+  [name |-> "XG",  cls |-> "Binary",    args |-> <<Rr(6), Rr(9), Rr(10)>>,  sl |-> {}, pre |-> <<>>, ex |-> <<Rr(11), Rr(3)>>],  \* x[:, j] = Binary(GetitemOp(1), x, j)
+  [name |-> "XS",  cls |-> "Unary",     args |-> <<Rr(7), Rr(9)>>,          sl |-> {}, pre |-> <<>>, ex |-> <<Rr(12), Rr(4)>>],  \* x.sum(1, True) = Unary(SumOp(1, True), x)
+  [name |-> "XR",  cls |-> "Unary",     args |-> <<Rr(8), Rr(9)>>,          sl |-> {}, pre |-> <<>>, ex |-> <<Rr(13), Rr(5)>>] >> \* x.reshape((11, 13))
+
+OpTermClasses == <<"Variable", "Binary", "Unary", "ArrayType", "GetitemOp", "SumOp", "ReshapeOp", "BinaryT", "UnaryT">>
+OpTermUser == {"XG", "XS", "XR"}          \* built under an interpretation (all four give the lazy node)
+OpTermPlain == {"G1", "DX"}               \* a parametrised op / a domain on its own
+
+OpTermPairsAt(d) ==
+  (IF InterpMode = "all" THEN OpTermUser \X {"eager", "lazy", "reflect", "normalize"}
+   ELSE {<<r, AllInterps[(d % 4) + 1]>> : r \in OpTermUser})
+  \cup {<<r, "">> : r \in OpTermPlain}
+
+TermLike == {"Variable", "Number", "Tensor", "Binary", "Unary", "Reduce", "Contraction"}
+
+Rcp == CASE LensName = "terms" -> TermRcp [] LensName = "opterms" -> OpTermRcp [] OTHER -> InternRcp
+Classes == CASE LensName = "terms" -> TermClasses [] LensName = "opterms" -> OpTermClasses [] OTHER -> InternClasses
 Idx(name) == CHOOSE k \in DOMAIN Rcp : Rcp[k].name = name
 FormOf(name, i) == IF LensName = "terms" THEN TermForm(name, i) ELSE name
 PairsAll(d) == IF LensName = "terms" THEN TermPairsAt(d)
+               ELSE IF LensName = "opterms" THEN OpTermPairsAt(d)
                ELSE {<<Rcp[k].name, "">> : k \in DOMAIN Rcp}
 PairsAt(d) == IF Focus = {} THEN PairsAll(d) ELSE {p \in PairsAll(d) : p[1] \in Focus}
 
@@ -216,10 +252,13 @@ Mentions(S, x, nm) ==
      \/ a = Nn(nm)
      \/ a[1] = "o" /\ Mentions(S, a[2], nm)
 
-RECURSIVE Mk(_, _, _), RenameObj(_, _, _, _), RenameArgs(_, _, _, _, _, _)
+RECURSIVE Mk(_, _, _, _), RenameObj(_, _, _, _), RenameArgs(_, _, _, _, _, _)
+RECURSIVE Build(_, _, _), BuildArgs(_, _, _, _, _)
 
-(* reflect: lookup-or-insert; returns [S, o]                               *)
-Mk(S, cls, args) ==
+(* reflect: lookup-or-insert; returns [S, o].  ex: recipes of what a NEW   *)
+(* node additionally acquires and holds (its parametrised class, its       *)
+(* output domain); nothing is built on a hit                               *)
+Mk(S, cls, args, ex) ==
   LET key == KeyOf(S, args)
       hit == {e \in S.table : e.cls = cls /\ e.key = key}
   IN IF hit # {}
@@ -229,18 +268,20 @@ Mk(S, cls, args) ==
           IF bn = 0 \/ bn >= 100
           THEN LET S1 == NewObj(S, "obj", cls, args, 0)
                    o == Len(S1.heap)
-               IN [S |-> AddEntry(S1, cls, key, args, o), o |-> o]
+                   S2 == AddEntry(S1, cls, key, args, o)
+                   x == BuildArgs(S2, ex, 1, <<>>, 0)
+               IN [S |-> [x.S EXCEPT !.heap[o].memo = @ \cup {x.args[k][2] : k \in 1..Len(x.args)}], o |-> o]
           ELSE (* _alpha_mangle: fresh name, renamed sub-terms, the renamed node is
                   built by reflect.interpret, then stored under the unmangled key *)
                LET g == S.gensym + 1
                    rn == RenameArgs([S EXCEPT !.gensym = g], args, 1, <<>>, bn, 100 + g)
-                   m == Mk(rn.S, cls, rn.args)
+                   m == Mk(rn.S, cls, rn.args, ex)
                IN [S |-> AddEntry(m.S, cls, key, args, m.o), o |-> m.o]
 
 RenameObj(S, x, from, to) ==
   IF ~Mentions(S, x, from) THEN [S |-> S, o |-> x]
   ELSE LET rn == RenameArgs(S, S.heap[x].args, 1, <<>>, from, to)
-       IN Mk(rn.S, S.heap[x].cls, rn.args)
+       IN Mk(rn.S, S.heap[x].cls, rn.args, <<>>)
 
 RenameArgs(S, args, k, acc, from, to) ==
   IF k > Len(args) THEN [S |-> S, args |-> acc]
@@ -251,14 +292,12 @@ RenameArgs(S, args, k, acc, from, to) ==
             IN RenameArgs(b.S, args, k + 1, Append(acc, <<"o", b.o>>), from, to)
        ELSE RenameArgs(S, args, k + 1, Append(acc, a), from, to)
 
-RECURSIVE Build(_, _, _), BuildArgs(_, _, _, _, _)
-
 (* evaluate a recipe: (discarded operands first,) arguments left to right, *)
 (* then the node; ad is the address of the array an evaluation allocates   *)
 Build(S, r, ad) ==
   LET p == BuildArgs(S, Rcp[r].pre, 1, <<>>, ad)
       b == BuildArgs(p.S, Rcp[r].args, 1, <<>>, ad)
-  IN Mk(b.S, Rcp[r].cls, NormArgs(Rcp[r].cls, b.args))
+  IN Mk(b.S, Rcp[r].cls, NormArgs(Rcp[r].cls, b.args), Rcp[r].ex)
 
 BuildArgs(S, args, k, acc, ad) ==
   IF k > Len(args) THEN [S |-> S, args |-> acc]
@@ -278,7 +317,7 @@ RECURSIVE CopyObj(_, _, _), CopyArgs(_, _, _, _, _)
 (* up; every array is copied (once per round trip) to a new address        *)
 CopyObj(S, x, memo) ==
   LET c == CopyArgs(S, S.heap[x].args, 1, <<>>, memo)
-      m == Mk(c.S, S.heap[x].cls, c.args)
+      m == Mk(c.S, S.heap[x].cls, c.args, <<>>)
   IN [S |-> m.S, o |-> m.o, memo |-> c.memo]
 
 CopyArgs(S, args, k, acc, memo) ==
@@ -331,7 +370,7 @@ SlotsReady(S, name) == \A s \in Rcp[Idx(name)].sl : S.slots[s] # 0
 InUse(S) == {S.addr[x] : x \in {y \in LiveSet(S) : S.heap[y].k = "arr"}}
 
 PickleInterps(S, h, d) ==
-  IF LensName # "terms" THEN {""}
+  IF S.heap[S.handles[h]].cls \notin TermLike THEN {""}
   ELSE IF S.heap[S.handles[h]].cls \in {"Variable", "Number", "Tensor"}
        THEN (IF InterpMode = "all" THEN {"eager", "lazy", "reflect", "normalize"} ELSE {AllInterps[(d % 4) + 1]})
        ELSE (IF InterpMode = "all" THEN {"lazy", "reflect"} ELSE {IF d % 2 = 0 THEN "reflect" ELSE "lazy"})
@@ -354,7 +393,7 @@ ActsAll(S, d, last) ==
   \cup (IF CollectAlways \/ Garbage(S) # {} THEN {Act("Collect", "", "", 0, 0, 0)} ELSE {})
   \cup UNION {{Act("Pickle", "", i, h, 0, 0) : i \in PickleInterps(S, h, d)} :
                 h \in {g \in S.held : room /\ Picklable(S.heap[S.handles[g]].cls)}}
-  \cup {Act("Reflect", "", "", h, 0, 0) : h \in {g \in S.held : room /\ LensName = "terms" /\ ~Canon}}
+  \cup {Act("Reflect", "", "", h, 0, 0) : h \in {g \in S.held : room /\ S.heap[S.handles[g]].cls \in TermLike /\ ~Canon}}
   \cup {Act("Free", "", "", 0, s, 0) : s \in {t \in FreeableSlots : LensName = "terms" /\ S.slots[t] # 0}}
   \cup {Act("Alloc", "", "", 0, p[1], p[2]) :
           p \in {q \in FreeableSlots \X Addrs : LensName = "terms" /\ S.slots[q[1]] = 0
@@ -386,7 +425,7 @@ Apply(S, act) ==
     [] act.a = "Reflect" ->
          (* reinterpret under reflect re-constructs bottom up from the stored args:
             every lookup hits, the identical object comes back *)
-         LET m == Mk(S, S.heap[S.handles[act.h]].cls, S.heap[S.handles[act.h]].args) IN Push(m.S, m.o)
+         LET m == Mk(S, S.heap[S.handles[act.h]].cls, S.heap[S.handles[act.h]].args, <<>>) IN Push(m.S, m.o)
     [] act.a = "Free" -> [S EXCEPT !.slots[act.s] = 0]
     [] act.a = "Alloc" ->
          LET S1 == NewObj(S, "arr", "ndarray", <<>>, act.ad)
